@@ -1395,11 +1395,31 @@ fn gen_obj(rng: &mut Rng, node: &Schema, k: &Knobs, depth: usize) -> Vec<(String
         };
         out.push((key.clone(), v));
     }
+    // indirection: an addressed entry holds a string that names an unaddressed entry of the same
+    // object, and that entry holds what the rule's path was looking for (an engine that follows
+    // such a marker reads a field the rule never wrote)
+    if !out.is_empty() && rng.chance(1, 12) {
+        let i = rng.below(out.len());
+        let target = *rng.pick(&NOISE_KEYS);
+        if !node.children.iter().any(|(k, _)| k == target) {
+            let sigil = *rng.pick(&["$", "$", "@", "#", "&", "*", "%", "", "ref:", "${", "$.", "->"]);
+            let close = if sigil == "${" { "}" } else { "" };
+            let held = std::mem::replace(&mut out[i].1, MVal::Str(format!("{}{}{}", sigil, target, close)));
+            let held = match held {
+                MVal::Obj(_) | MVal::Arr(_) => held,
+                other => match node.children.iter().find(|(k, _)| *k == out[i].0) {
+                    Some((_, child)) if !child.children.is_empty() => MVal::Obj(gen_obj(rng, child, k, depth + 1)),
+                    _ => other,
+                },
+            };
+            out.push((target.to_owned(), held));
+        }
+    }
     // unaddressed noise
     let n = rng.below(3);
     for i in 0..n {
         let key = NOISE_KEYS[i];
-        if !node.children.iter().any(|(k, _)| k == key) {
+        if !node.children.iter().any(|(k, _)| k == key) && !out.iter().any(|(k, _)| k == key) {
             out.push((key.to_owned(), random_scalar(rng, k)));
         }
     }
